@@ -88,6 +88,26 @@ def lattice_form(S, jn):
     return [[(ij, np.array(jump_project(S, ij, dx)[2], dtype=int)) for ij, dx in cl] for cl in jn]
 
 
+def saturates(proj, upto=5):
+    """Does the set of reachable pair states stop growing (a network that does not percolate)?  Only used to
+    label violation keys; the verdicts come from TLC."""
+    J = [(s[0], s[1], tuple(s[2])) for cl in proj for s in cl]
+    reach, shell = set(J), set(J)
+    for _ in range(upto):
+        nxt = set()
+        for (i, j, R) in shell:
+            for (a, b, R2) in J:
+                if a == j:
+                    s = (i, b, tuple(x + y for x, y in zip(R, R2)))
+                    if not (s[0] == s[1] and not any(s[2])) and s not in reach:
+                        nxt.add(s)
+        if not nxt:
+            return True
+        reach |= nxt
+        shell = nxt
+    return False
+
+
 def world_tla(ow):
     return "[dim |-> %d, M |-> %s, D |-> %d, basis |-> %s]" % (
         ow["dim"], to_tla(ow["M"]), ow["D"], to_tla(ow["basis"]))
